@@ -11,6 +11,7 @@ LEVEL = "proof"
 COQ_FILES = ["Tie/C09_defs.v", "Tie/C09_tie.v", "Props/C09_props.v"]
 PROPS_FILES = ["C09_props.v"]
 TRUSTED_BASE = [
+    "vlib/symex.py (symbolic execution of the translated Python subset on the ast: the translator reads value / outcome trees, so local names, intermediates, helpers and the form of branches do not matter; its assumptions - pure expressions, opaque calls, no aliasing writes, try handlers not modelled - are listed in DESIGN.md 12.7; fail-closed)",
     "py2gallina unit 'sens norm' (structure of the RSS-estimate branch and of the renormalisation tail of EstimateSensitivityMapModule.forward and of MRIModelEngine.compute_sensitivity_map: sqrt of the sum over complex and coil axes of squares, safe_divide by it)",
     "Coq's classical real numbers (Reals): sqrt with sqrt x * sqrt x = x for x >= 0; the theorems are about exact real arithmetic - float under/overflow of the squares and rounding (sum = 1 only to 1e-4) are observed by oracles, not proved",
     "torch broadcasting / unsqueeze / sum over axes: the maps are normalised independently at every spatial location (harness flattens to locations)",
